@@ -276,3 +276,31 @@ func init() {
 	I["(github.com/cosmos/cosmos-sdk/types.AccAddress).Equals"] = addrEq
 	I["(github.com/cosmos/cosmos-sdk/types.ValAddress).Equals"] = addrEq
 }
+
+func init() {
+	// slices.SortStableFunc / sort.Slice style in-place sorts: the slice becomes a permutation of itself
+	// (assumed contract of the standard library; sortedness w.r.t. the comparator is not modelled).
+	sortPerm := func(fc *FCtx, st *State, e *ast.CallExpr, r *Val, a []Val) []Val {
+		s := a[0]
+		if s.S.Kind != KSlice {
+			oos("sort of %s", s.S.Name)
+		}
+		fc.U.fresh++
+		id := fc.U.fresh
+		pf, qf := fmt.Sprintf("sperm%d", id), fmt.Sprintf("sinv%d", id)
+		fc.U.Fun(pf, []*Sort{SInt}, SInt)
+		fc.U.Fun(qf, []*Sort{SInt}, SInt)
+		ns := Val{T: fc.U.Fresh("sorted", s.S), S: s.S, GoT: s.GoT}
+		n := slLen(s)
+		st.assume(fmt.Sprintf("(and (= %s %s) (= %s %s))", slLen(ns), n, slCap(ns), slCap(s)))
+		st.assume(fmt.Sprintf("(forall ((i Int)) (! (=> (and (<= 0 i) (< i %s)) (and (<= 0 (%s i)) (< (%s i) %s) (= (select %s i) (select %s (%s i))) (= (%s (%s i)) i))) :pattern ((select %s i)) :pattern ((%s i))))", n, pf, pf, n, slEl(ns), slEl(s), pf, qf, pf, slEl(ns), pf))
+		st.assume(fmt.Sprintf("(forall ((j Int)) (! (=> (and (<= 0 j) (< j %s)) (and (<= 0 (%s j)) (< (%s j) %s) (= (select %s j) (select %s (%s j))) (= (%s (%s j)) j))) :pattern ((%s j))))", n, qf, qf, n, slEl(s), slEl(ns), qf, pf, qf, qf))
+		fc.assumed["slices.SortStableFunc / sort.*: result is a permutation of the input (sortedness not modelled)"] = true
+		fc.assignOut(e.Args[0], ns, st)
+		return nil
+	}
+	intrinsics["slices.SortStableFunc"] = sortPerm
+	intrinsics["slices.SortFunc"] = sortPerm
+	intrinsics["sort.Slice"] = sortPerm
+	intrinsics["sort.SliceStable"] = sortPerm
+}
